@@ -171,9 +171,22 @@ pub fn check_c02(case: &ApplyCase, ex: &Exec, fuzz_limit: usize, seen: &mut Seen
                         }
                     }
                 }
-                HunkObs::Failed(r) => {
-                    if r == "MisorderedHunks" { seen.tag("failed-misordered"); }
+                HunkObs::Failed(r) if r == "MisorderedHunks" => {
+                    // refused because the nearest match lies before (or on) lines an earlier hunk froze: then no permitted
+                    // level may have a nearest match behind them (the level loop must go on after a misordered level)
+                    seen.nontrivial = true; seen.tag("failed-misordered");
+                    for l in 0..=maxl {
+                        let (a, _, sel) = select(file, &sd, l, last_offset);
+                        if let Some(q) = sel {
+                            if !blocked(l, q) {
+                                out.push(Violation::new("C02", "failed-although-admissible", format!("step {} hunk {}: reported MisorderedHunks but level {} admits line {} behind the previous hunk (anchor {:?}, limit {})", si, hi, l, q, a, fuzz_limit))
+                                    .with("anchor", &format!("{:?}", a)).with("reported", "MisorderedHunks"));
+                                break;
+                            }
+                        }
+                    }
                 }
+                HunkObs::Failed(_) => {}
                 HunkObs::Skipped => {}
             }
         }
